@@ -11,6 +11,7 @@ import (
 	"math"
 	"sort"
 	"strings"
+	"sync"
 	"sync/atomic"
 
 	"github.com/deadsy/sdfx/sdf"
@@ -385,15 +386,18 @@ func splitOperands(name string) (string, string) {
 	return "", ""
 }
 
-var leaf3 map[string]shapes.N3
+var (
+	leaf3     map[string]shapes.N3
+	leaf3Once sync.Once
+)
 
 func findLeaf3(name string) shapes.Ev3 {
-	if leaf3 == nil {
+	leaf3Once.Do(func() {
 		leaf3 = map[string]shapes.N3{}
 		for _, l := range shapes.LeafNodes3() {
 			leaf3[l.Name] = l
 		}
-	}
+	})
 	l, ok := leaf3[name]
 	if !ok {
 		return nil
